@@ -90,6 +90,7 @@ def run(tier, seed, replay=None):
     # the `descent` metric (known finding: libgraphite2 1.3.14 refuses metric 11 wherever it is used)
     rich["descent_metric"] = H + GL + "table(pos) cB cA {shift.y = descent} / _ _; endtable;\n"
     rich["attach_at_metrics_nowith"] = H + GL + "table(pos) cA cB {attach {to = @1; at {x = advancewidth; y = bb.height / 2}}} / _ ^ _; endtable;\n"
+    rich["lb_items_pos"] = H + GL + "table(pos) cA {shift.x = 5m} / _ # cB; cB {advance.x += 3m} / cA # _; endtable;\n"
     rich["lb_items"] = H + GL + "table(sub) cA > cB / # _; cB > cA / _ #; cA cB > cB cA / # _ _ #; endtable;\n"
     rich["justification_pass"] = H + "table(glyph) cA = glyphid(3..6) {justify.0.stretch = 100m; justify.0.weight = 2}; cK = glyphid(7); cB = glyphid(8); endtable;\ntable(sub) cA > cB; endtable;\ntable(justification) cA _ > @1 cK:1; endtable;\ntable(pos) cB {advance.x += 5m}; endtable;\n"
     rich["features_hidden_ids"] = (H + GL + 'table(feature) fa { id = 2000; id.hidden = "smcp"; name.1033 = string("A"); default = 0; settings { x0 { value = 0; name.1033 = string("x0"); } '
